@@ -27,52 +27,8 @@ ASSUMPTIONS = ["global names are identifiers ([A-Za-z_][A-Za-z0-9_]*, tokenizer.
 def r27a(ctx, run):
     syn = ctx.syn
     F = "codegen/src/mangle.rs"
-    need = {
-        "create_mangled_for_naive_global": ["loc.file()", "interner.lookup(loc.name().0)", "MangledPartKind::Name", "final_parts"],
-        "create_mangled_for_naive_lambda": ["loc.file()", "loc.lambda().into_raw().to_string()", "MangledPartKind::Lambda", "final_parts", "get_naive_lambda_global(loc)"],
-        "create_mangled_for_naive": ["create_mangled_for_naive_global(mod_dir, interner, global, final_parts)", "create_mangled_for_naive_lambda(mod_dir, interner, lambda, final_parts)"],
-        "create_mangled_for_concrete_global": ["loc.to_naive()", "loc.comptime_args()", "MangledPartKind::GenericID", "key.raw_start().to_string()", "final_parts"],
-        "create_mangled_for_concrete_lambda": ["loc.to_naive()", "loc.comptime_args()", "MangledPartKind::GenericID", "key.raw_start().to_string()", "final_parts"],
-        "create_mangled_for_concrete": ["loc.to_naive()", "loc.comptime_args()", "MangledPartKind::GenericID", "key.raw_start().to_string()", "final_parts"],
-    }
-    for name, subs in need.items():
-        fn = syn.fn(name, F)
-        c = canon(fn.body)
-        for s in subs:
-            run.check(s in c, fn.site(), "%s uses %s" % (name, s), name, "component:" + s, fn.file, fn.ln,
-                      "%s must put `%s` into the symbol name (identifying component dropped)" % (name, s))
-    # trait impls
-    impls = {}
-    for f in syn.fns_in(F):
-        if f.name == "to_mangled_name" and f.trait == "Mangle":
-            impls[f.impl_ty] = f
-    want = {
-        "NaiveGlobalLoc": ["create_mangled_for_naive_global(mod_dir, interner, *self,"],
-        "NaiveLambdaLoc": ["create_mangled_for_naive_lambda(mod_dir, interner, *self,"],
-        "NaiveLoc": ["create_mangled_for_naive(mod_dir, interner, *self,"],
-        "ConcreteGlobalLoc": ["create_mangled_for_concrete_global(mod_dir, interner, *self,"],
-        "ConcreteLambdaLoc": ["create_mangled_for_concrete_lambda(mod_dir, interner, *self,"],
-        "ConcreteLoc": ["create_mangled_for_concrete(mod_dir, interner, *self,"],
-        "FunctionToCompile": ["self.loc.to_mangled_name(mod_dir, interner)"],
-        "ComptimeLoc": ["create_mangled_for_concrete(mod_dir, interner, self.loc,", "MangledPartKind::Comptime", "self.comptime.into_raw().to_string()"],
-    }
-    for ty, subs in want.items():
-        f = impls.get(ty)
-        if f is None:
-            run.finding("Mangle for " + ty, "impl-missing", F, 0, "no Mangle impl for %s found" % ty)
-            continue
-        c = canon(f.body)
-        for s in subs:
-            run.check(s in c, f.site(), "Mangle for %s: %s" % (ty, s), "Mangle for " + ty, "component:" + s, f.file, f.ln,
-                      "Mangle for %s must include `%s`" % (ty, s))
-    # the (ComptimeLoc, &str) impl
-    tup = [f for f in syn.fns_in(F) if f.name == "to_mangled_name" and f.impl_ty and f.impl_ty.startswith("(")]
-    if len(tup) != 1:
-        raise LookupError("Mangle for (ComptimeLoc, &str): %d" % len(tup))
-    c = canon(tup[0].body)
-    for s in ("self.0.loc", "self.0.comptime.into_raw().to_string()", "MangledPartKind::Comptime", "MangledPartKind::InternalData", "self.1.into()"):
-        run.check(s in c, tup[0].site(), "Mangle for (ComptimeLoc,&str): %s" % s, "Mangle for (ComptimeLoc,&str)", "component:" + s, tup[0].file, tup[0].ln,
-                  "Mangle for (ComptimeLoc, &str) must include `%s`" % s)
+    # (which components each helper and each Mangle impl forwards is decided by R27.e, which evaluates them; the tables of source substrings that used
+    # to stand here flagged renames and missed a branch that dropped `final_parts` while another kept it - seed C27-4)
     # create_mangled_for_file: TOC per part in part order, then each part in the same order, then 'E'
     fn = syn.fn("create_mangled_for_file", F)
     seq = []
@@ -564,6 +520,156 @@ def _origins_chain(F, fn, ch, depth, seen, out):
         out.add("unknown:" + str(k))
 
 
+def r27e(ctx, run):
+    """every Mangle impl evaluated from its source down to create_mangled_for_file, on model locations: the parts handed over must be, in order, the
+    entity's own part (Name of the global / Lambda index, or the Name of the global an anonymous-looking lambda is bound to), the GenericID of the
+    instantiation when there is one, and then every further part the impl adds (Comptime index, InternalData name) - none dropped on any branch."""
+    from symint import SymInterp
+    from absint import Obj, Term, Variant, Panic, CannotEstablish, _Return
+    F = "codegen/src/mangle.rs"
+    fns = {f.qual.rsplit("::", 1)[-1]: f for f in ctx.syn.fns_in(F) if f.body is not None and not f.in_test and f.trait is None}
+    impls = {f.impl_ty: f for f in ctx.syn.fns_in(F) if f.name == "to_mangled_name" and f.trait == "Mangle"}
+    if "create_mangled_for_file" not in fns or len(impls) < 8:
+        raise LookupError("mangle helpers / impls: %d / %d" % (len(fns), len(impls)))
+
+    def leaves(v):
+        if isinstance(v, Term):
+            out = set()
+            for a in v.args:
+                out |= leaves(a)
+            return out | ({v.op} if not v.args else set())
+        if isinstance(v, Obj):
+            out = set()
+            for x in v.fields.values():
+                out |= leaves(x)
+            return out
+        if isinstance(v, str):
+            return {v}
+        return set()
+
+    def mk_interp(bound_global, log):
+        class MI(SymInterp):
+            def eval(self, e, env):
+                k = e.get("k")
+                if k in ("ref",) or (k == "un" and e.get("op") in ("*", "&")):
+                    return self.eval(e["e"], env)
+                if k == "field" and e["m"].isdigit():
+                    b = self.eval(e["e"], env)
+                    if isinstance(b, Obj) and e["m"] in b.fields:
+                        return b.fields[e["m"]]
+                return super().eval(e, env)
+
+            def default_method(self, recv, m, args, e):
+                if isinstance(recv, Obj) and m in recv.fields and not args:
+                    return recv.fields[m]
+                if isinstance(recv, Obj) and recv.name in ("ConcreteGlobalLoc", "ConcreteLambdaLoc") and m == "to_naive":
+                    return recv.fields["naive"]
+                if isinstance(recv, Variant) and recv.path.startswith("ConcreteLoc::"):
+                    inner = recv.payload["0"]
+                    if m == "to_naive":
+                        return Variant("NaiveLoc::" + recv.last, {"0": inner.fields["naive"]})
+                    if m == "comptime_args":
+                        return inner.fields["comptime_args"]
+                if m == "map" and len(args) == 1 and (recv is None or isinstance(recv, (Term, Obj))):
+                    return None if recv is None else self.call_closure(args[0], [recv])
+                if m == "into_iter" and (recv is None or isinstance(recv, Obj)):
+                    return [] if recv is None else [recv]
+                if m == "chain" and isinstance(recv, list) and len(args) == 1 and isinstance(args[0], list):
+                    return recv + args[0]
+                if m in ("collect_vec", "collect") and isinstance(recv, list):
+                    return recv
+                if m in ("into", "to_string", "clone", "as_ref", "into_raw", "raw_start", "to_owned"):
+                    return Term(m, recv) if m in ("into_raw", "raw_start") else recv
+                if m == "lookup" and len(args) == 1:
+                    return Term("lookup", args[0])
+                if m == "to_mangled_name" and isinstance(recv, (Obj, Variant)):
+                    tname = recv.name if isinstance(recv, Obj) else recv.path.split("::")[0]
+                    if tname in impls:
+                        return self.inline(impls[tname], args, recv=recv)
+                return super().default_method(recv, m, args, e)
+
+        def file_sink(i, a):
+            log.append((a[0], list(a[3]) if isinstance(a[3], list) else a[3]))
+            return Term("mangled")
+        it = MI(resolver=lambda path: fns.get(path.rsplit("::", 1)[-1]) if path.rsplit("::", 1)[-1] != "create_mangled_for_file" else None,
+                funcs={"create_mangled_for_file": file_sink, "get_naive_lambda_global": lambda i, a: bound_global,
+                       "std::iter::once": lambda i, a: [a[0]], "iter::once": lambda i, a: [a[0]], "std::iter::empty": lambda i, a: [], "iter::empty": lambda i, a: [],
+                       "Some": lambda i, a: a[0]})
+        return it
+    gname = Obj("NaiveGlobalLoc", file=Term("FILE_G"), name=Obj("Name", **{"0": Term("NAME_G")}))
+    bound = Obj("NaiveGlobalLoc", file=Term("FILE_B"), name=Obj("Name", **{"0": Term("NAME_B")}))
+    lname = Obj("NaiveLambdaLoc", file=Term("FILE_L"), lambda_=Term("LAMBDA_IDX"))
+    lname.fields["lambda"] = lname.fields.pop("lambda_")
+    cases = []
+    for key in (None, Term("GENERIC_KEY")):
+        cg = Obj("ConcreteGlobalLoc", naive=gname, comptime_args=key)
+        cl = Obj("ConcreteLambdaLoc", naive=lname, comptime_args=key)
+        gen = [("GenericID", "GENERIC_KEY")] if key is not None else []
+        for bg in (None, bound):
+            own_l = [("Name", "NAME_B")] if bg is not None else [("Lambda", "LAMBDA_IDX")]
+            sfx = "%s%s" % (", generic instance" if key is not None else "", ", bound to a global" if bg is not None else "")
+            cases += [
+                ("NaiveLambdaLoc" + sfx, "NaiveLambdaLoc", lname, bg, own_l) if key is None else None,
+                ("ConcreteLambdaLoc" + sfx, "ConcreteLambdaLoc", cl, bg, own_l + gen),
+                ("ConcreteLoc::Lambda" + sfx, "ConcreteLoc", Variant("ConcreteLoc::Lambda", {"0": cl}), bg, own_l + gen),
+                ("NaiveLoc::Lambda" + sfx, "NaiveLoc", Variant("NaiveLoc::Lambda", {"0": lname}), bg, own_l) if key is None else None,
+                ("comptime block in a lambda" + sfx, "ComptimeLoc", Obj("ComptimeLoc", loc=Variant("ConcreteLoc::Lambda", {"0": cl}), comptime=Term("COMPTIME_IDX")), bg,
+                 own_l + gen + [("Comptime", "COMPTIME_IDX")]),
+                ("data of a comptime block in a lambda" + sfx, "(ComptimeLoc,&str)",
+                 Obj("tuple", **{"0": Obj("ComptimeLoc", loc=Variant("ConcreteLoc::Lambda", {"0": cl}), comptime=Term("COMPTIME_IDX")), "1": Term("DATA_NAME")}), bg,
+                 own_l + gen + [("Comptime", "COMPTIME_IDX"), ("InternalData", "DATA_NAME")]),
+            ]
+        sfx = ", generic instance" if key is not None else ""
+        cases += [
+            ("NaiveGlobalLoc", "NaiveGlobalLoc", gname, None, [("Name", "NAME_G")]) if key is None else None,
+            ("ConcreteGlobalLoc" + sfx, "ConcreteGlobalLoc", cg, None, [("Name", "NAME_G")] + gen),
+            ("ConcreteLoc::Global" + sfx, "ConcreteLoc", Variant("ConcreteLoc::Global", {"0": cg}), None, [("Name", "NAME_G")] + gen),
+            ("comptime block in a global" + sfx, "ComptimeLoc", Obj("ComptimeLoc", loc=Variant("ConcreteLoc::Global", {"0": cg}), comptime=Term("COMPTIME_IDX")), None,
+             [("Name", "NAME_G")] + gen + [("Comptime", "COMPTIME_IDX")]),
+            ("function to compile" + sfx, "FunctionToCompile", Obj("FunctionToCompile", loc=Variant("ConcreteLoc::Global", {"0": cg})), None, [("Name", "NAME_G")] + gen),
+        ]
+    tuple_impl = [f for f in ctx.syn.fns_in(F) if f.name == "to_mangled_name" and f.impl_ty and f.impl_ty.startswith("(")]
+    n = 0
+    for c in cases:
+        if c is None:
+            continue
+        desc, ty, selfv, bg, want = c
+        impl = impls.get(ty) if not ty.startswith("(") else (tuple_impl[0] if tuple_impl else None)
+        if impl is None:
+            run.finding("Mangle for " + ty, "impl-missing", F, 0, "no Mangle impl for %s found" % ty)
+            continue
+        log = []
+        it = mk_interp(bg, log)
+        try:
+            try:
+                it.inline(impl, [Term("mod_dir"), Term("interner")], recv=selfv)
+            except _Return:
+                pass
+            got = None
+            if len(log) != 1 or not isinstance(log[0][1], list):
+                got = "cannot establish: %d calls of create_mangled_for_file" % len(log)
+            else:
+                got = []
+                for part in log[0][1]:
+                    if not isinstance(part, Obj) or "kind" not in part.fields:
+                        got.append(("?", repr(part)[:30]))
+                        continue
+                    kd = part.fields["kind"]
+                    lv = sorted(x for x in leaves(part.fields.get("text")) if x.isupper() or "_" in x)
+                    got.append((kd.last if isinstance(kd, Variant) else str(kd), lv[0] if len(lv) == 1 else "/".join(lv)))
+        except (Panic, CannotEstablish) as ce:
+            got = "cannot establish: %s" % getattr(ce, "what", ce)
+        n += 1
+        ok = got == want
+        def show(ps):
+            return ps if isinstance(ps, str) else " ".join("%s(%s)" % (k_, t_.lower()) for k_, t_ in ps)
+        run.check(ok, impl.site(), "%s -> %s" % (desc, show(got)), "Mangle for " + ty, "parts:" + desc, impl.file, impl.ln,
+                  "the symbol of a %s is built from the parts [%s]; it must be [%s]: a part that tells two entities apart is missing (or out of order), so distinct entities "
+                  "get the same symbol" % (desc, show(got), show(want)))
+    if n < 20:
+        raise LookupError("Mangle impl evaluations: %d" % n)
+
+
 def r27d(ctx, run):
     F = ctx.facts
     n = 0
@@ -610,20 +716,15 @@ def r27d(ctx, run):
     fm = [m for m in synq.macros(mi.body, "format")]
     good = len(fm) == 1 and fm[0]["tokens"].startswith('"_CI{}{}E"')
     run.check(good, mi.site(), "internal names start with `_CI`", "mangle_internal", "prefix", mi.file, mi.ln, "mangle_internal must prefix `_CI` (disjoint from the upper-case table of contents)")
-    # a mangled name's TOC is never empty: every create_mangled_for_file caller passes >= 1 final part
-    for f in ctx.syn.fns_in("codegen/src/mangle.rs"):
-        if f.body is None:
-            continue
-        for c in synq.calls(f.body, "create_mangled_for_file"):
-            a = canon(c["a"][3])
-            run.check("iter::once(MangledPart" in a, f.site(c["ln"]), "%s passes at least one final part" % f.qual, f.qual, "nonempty-toc", f.file, c["ln"],
-                      "create_mangled_for_file must always receive at least one final part, otherwise the name can start with a digit or be `E`")
+    # (that a mangled name's table of contents is never empty is decided by R27.e: every evaluated parts list starts with the entity's own part; a
+    # textual clause that demanded `iter::once(MangledPart` at the call was removed - it flagged a behaviour-preserving restructuring)
 
 
 def rules(ctx):
     return [
-        Rule("R27.a", "every Mangle impl forwards all identifying components; TOC/parts layout; distinct kind codes", 40, r27a),
+        Rule("R27.a", "symbol layout: one table-of-contents letter per part, the parts in the same order, terminator; part-kind codes pairwise distinct", 2, r27a),
         Rule("R27.b", "the part encoding is uniquely decodable for every part kind's text class", 8, r27b),
         Rule("R27.c", "path component normalisation is injective; the `src` skip drops the component it tested", 2, r27c),
+        Rule("R27.e", "every Mangle impl evaluated down to create_mangled_for_file: own part, generic id, comptime index, data name - all present, in order, on every branch", 20, r27e),
         Rule("R27.d", "symbol names come only from the mangler / internal mangler / literals / extern names; families disjoint by first character", 12, r27d),
     ]
